@@ -13,12 +13,18 @@
                        release of cc.mutex before the fetching thread's critical section
      CountdownOK       chswcd changes as coded (request: 1; vbi_decode: count down; reset, matching header: 0)
      ResetRuns         the countdown reaching zero is followed by the reset in the decoding thread
+     LockBalance       at every API call / return of a thread (frame, fetch, switch request, raw decoder call, thread end)
+                       the thread owns no mutex (a fetch made by a handler: event_mutex only): every exit path unlocked
+     ProloguePresent   every vbi_decode() passes through exactly one chswcd_mutex section of its own before the next frame
+                       (regular frame: count down; time stamp outside 25..50 ms: arm the countdown if it is not running)
+     SwitchServed      a request of vbi_channel_switched() is served by the next regular frame (the countdown is 1 there)
+                       unless a reset or a matching Teletext header cleared it as coded
      ContextOK         every marker / handler is reached in a lock context of the table Contexts of Locks
      ConsistentSet     the service set changes per critical section exactly by the requested add / remove,
                        API return values agree, and every raw decode returns the services of the set that
                        was current in its critical section (all services are present in the test image)
 *)
-EXTENDS Locks, Json, IOUtils
+EXTENDS Locks, Integers, Json, IOUtils
 
 Log == ndJsonDeserialize(IOEnv.TRACEFILE)
 TraceThreads == {"dec", "f1", "f2", "f3", "sw", "sw2", "mod1", "mod2", "chk1", "chk2"}
@@ -33,9 +39,12 @@ VARIABLES l,
           tsvc,      \* raw decoder: current service set
           tcall,     \* per thread: raw decoder call in progress
           tret,      \* per thread: service set at the end of its latest critical section
-          tchk,      \* results of vbi_raw_decoder_check_services seen so far: {<<arg, val>>}
+          tchk,      \* results of vbi_raw_decoder_check_services seen so far: {<<<<geometry, arg>>, val>>}
+          tfr,       \* frame in progress: [gap, pro] time stamp out of step, countdown sections seen (pro = -1: no frame yet)
+          treq,      \* a channel switch request is waiting
+          tgeom,     \* raw decoder geometry: "full" or "zero" (no lines: nothing is decodable)
           bad        \* first property violated by the recorded execution
-tvars == <<vars, l, tpub, tsnap, tcd, tneed, tacc, tsvc, tcall, tret, tchk, bad>>
+tvars == <<vars, l, tpub, tsnap, tcd, tneed, tacc, tsvc, tcall, tret, tchk, tfr, treq, tgeom, bad>>
 
 Ev == Log[l]
 Has(f) == f \in DOMAIN Ev
@@ -43,58 +52,74 @@ Rng(s) == {s[i] : i \in 1..Len(s)}
 Ok == [p |-> "", t |-> "", d |-> <<>>]
 Flag(p, d) == IF bad = Ok THEN [p |-> p, t |-> Ev.t, d |-> d] ELSE bad
 NoAcc == [fn |-> "", w |-> 0]
-NoCall == [op |-> "", arg |-> {}]
+NoCall == [op |-> "", arg |-> {}, g |-> "full"]      \* g: geometry in the call's critical section
 NoPages == [i \in 1..8 |-> ""]
 AllServices == {"ttx", "vps", "cc", "wss"}
+NoFrame == [gap |-> FALSE, pro |-> -1]
+IsGap(dt) == dt < 25000 \/ dt > 50000          \* vbi_decode(): "timestamp shall advance by 1/30 to 1/25 seconds"
 
 TraceInit == /\ tpub = NoPages /\ tsnap = [t \in TraceThreads |-> NoPages] /\ tcd = 0 /\ tneed = FALSE
              /\ tacc = [t \in TraceThreads |-> NoAcc] /\ tsvc = {} /\ tcall = [t \in TraceThreads |-> NoCall]
              /\ tret = [t \in TraceThreads |-> {}] /\ tchk = {} /\ bad = Ok
-LocksUnchanged == UNCHANGED <<ops, code, page, ver, chswcd, svc, jobs, par, loc, published>>
+             /\ tfr = NoFrame /\ treq = FALSE /\ tgeom = "full"
+LocksUnchanged == UNCHANGED <<ops, code, page, ver, chswcd, svc, jobs, par, loc, published, req>>
 
 TReset == /\ Ev.e = "Reset"
           /\ holder' = [m \in Mutexes |-> Free]
           /\ tpub' = NoPages /\ tsnap' = [t \in TraceThreads |-> NoPages] /\ tcd' = 0 /\ tneed' = FALSE
           /\ tacc' = [t \in TraceThreads |-> NoAcc] /\ tsvc' = {} /\ tcall' = [t \in TraceThreads |-> NoCall]
           /\ tret' = [t \in TraceThreads |-> {}] /\ tchk' = {} /\ bad' = bad
+          /\ tfr' = NoFrame /\ treq' = FALSE /\ tgeom' = "full"
 
 TLock == /\ Ev.e = "lock" \/ (Ev.e = "trylock" /\ Ev.ok = 1)
          /\ Acquire(Ev.t, Ev.m)
          /\ tsnap' = IF Ev.m = "cc" THEN [tsnap EXCEPT ![Ev.t] = tpub] ELSE tsnap
-         /\ UNCHANGED <<tpub, tcd, tneed, tacc, tsvc, tcall, tret, tchk, bad>>
+         /\ UNCHANGED <<tpub, tcd, tneed, tacc, tsvc, tcall, tret, tchk, bad, tfr, treq, tgeom>>
 
 TTryFail == /\ Ev.e = "trylock" /\ Ev.ok = 0
-            /\ UNCHANGED <<holder, tpub, tsnap, tcd, tneed, tacc, tsvc, tcall, tret, tchk, bad>>
+            /\ UNCHANGED <<holder, tpub, tsnap, tcd, tneed, tacc, tsvc, tcall, tret, tchk, bad, tfr, treq, tgeom>>
 
 \* value of chswcd the code must leave behind, by the function whose marker was reached in this critical section
 CountdownAfter(a) == CASE a.fn = "vbi_channel_switched" -> 1
-                       [] a.fn = "vbi_decode" -> TickVal(tcd)
+                       [] a.fn = "vbi_decode" -> IF tfr.gap THEN GapVal(tcd) ELSE TickVal(tcd)
                        [] a.fn = "vbi_chsw_reset" -> 0
                        [] a.fn = "store_lop" /\ a.w = 1 -> 0
                        [] OTHER -> tcd
 \* service set the call must leave behind
-ServicesAfter(c) == CASE c.op = "add" -> AddVal(tsvc, c.arg)
+GeomAfter(c) == CASE c.op = "resize_zero" -> "zero" [] c.op = "resize_full" -> "full" [] OTHER -> tgeom
+ServicesAfter(c) == CASE c.op = "add" -> IF tgeom = "full" THEN AddVal(tsvc, c.arg) ELSE {}
                       [] c.op = "remove" -> RemoveVal(tsvc, c.arg)
-                      [] OTHER -> tsvc
+                      [] c.op \in {"resize_zero", "reset"} -> {}     \* invalid sampling parameters / reset: nothing is decoded
+                      [] OTHER -> tsvc                               \* decode, check, resize to the same or back to the full geometry
 
 TUnlock ==
   /\ Ev.e = "unlock" /\ Release(Ev.t, Ev.m)
   /\ tpub' = IF Ev.m = "cc" /\ Has("pv") THEN Ev.pv ELSE tpub
   /\ IF Ev.m = "chsw"
-     THEN LET a == tacc[Ev.t] IN
+     THEN LET a == tacc[Ev.t]
+              tick == a.fn = "vbi_decode" /\ ~tfr.gap IN
           /\ tcd' = Ev.v
-          /\ tneed' = IF a.fn = "vbi_decode" THEN TickFires(tcd) ELSE tneed
+          /\ tneed' = IF tick THEN TickFires(tcd) ELSE tneed
+          /\ tfr' = IF a.fn = "vbi_decode" /\ Ev.t = "dec" THEN [tfr EXCEPT !.pro = @ + 1] ELSE tfr
+          /\ treq' = CASE a.fn = "vbi_channel_switched" -> TRUE
+                        [] a.fn = "vbi_chsw_reset" \/ (a.fn = "store_lop" /\ a.w = 1) -> FALSE      \* cleared as coded
+                        [] tick /\ TickFires(tcd) -> FALSE                                          \* served
+                        [] OTHER -> treq
           /\ bad' = IF Ev.v # CountdownAfter(a) THEN Flag("CountdownOK", <<a.fn, tcd, Ev.v>>)
-                    ELSE IF a.fn = "vbi_decode" /\ tneed THEN Flag("ResetRuns", <<"no reset before the next frame">>)
+                    ELSE IF tick /\ tneed THEN Flag("ResetRuns", <<"no reset before the next frame">>)
+                    ELSE IF tick /\ treq /\ ~TickFires(tcd) THEN Flag("SwitchServed", <<"request not served by the next regular frame", tcd>>)
+                    ELSE IF a.fn = "vbi_decode" /\ Ev.t = "dec" /\ tfr.pro >= 1 THEN Flag("ProloguePresent", <<"second countdown section in one frame">>)
                     ELSE bad
-          /\ UNCHANGED <<tsvc, tret>>
+          /\ UNCHANGED <<tsvc, tret, tgeom>>
      ELSE IF Ev.m = "rd"
      THEN /\ tsvc' = Rng(Ev.svc) /\ tret' = [tret EXCEPT ![Ev.t] = Rng(Ev.svc)]
+          /\ tgeom' = GeomAfter(tcall[Ev.t])
           /\ bad' = IF Rng(Ev.svc) # ServicesAfter(tcall[Ev.t]) THEN Flag("ConsistentSet", <<tcall[Ev.t].op, tcall[Ev.t].arg, tsvc, Rng(Ev.svc)>>) ELSE bad
-          /\ UNCHANGED <<tcd, tneed>>
-     ELSE UNCHANGED <<tcd, tneed, tsvc, tret, bad>>
+          /\ UNCHANGED <<tcd, tneed, tfr, treq>>
+     ELSE UNCHANGED <<tcd, tneed, tsvc, tret, bad, tfr, treq, tgeom>>
   /\ tacc' = [tacc EXCEPT ![Ev.t] = NoAcc]
-  /\ UNCHANGED <<tsnap, tcall, tchk>>
+  /\ tcall' = IF Ev.m = "rd" THEN [tcall EXCEPT ![Ev.t].g = GeomAfter(tcall[Ev.t])] ELSE tcall
+  /\ UNCHANGED <<tsnap, tchk>>
 
 TAcc == /\ Ev.e = "acc"
         /\ bad' = IF Ev.r \in DOMAIN Guard /\ ~Holds(Ev.t, Ev.r) THEN Flag("LocksetOK", <<Ev.r, Ev.w, Ev.fn>>)
@@ -102,50 +127,77 @@ TAcc == /\ Ev.e = "acc"
                   ELSE bad
         /\ tacc' = IF Ev.r = "chswcd" THEN [tacc EXCEPT ![Ev.t] = [fn |-> Ev.fn, w |-> Ev.w]] ELSE tacc
         /\ tneed' = IF Ev.fn = "vbi_caption_channel_switched" THEN FALSE ELSE tneed
-        /\ UNCHANGED <<holder, tpub, tsnap, tcd, tsvc, tcall, tret, tchk>>
+        /\ UNCHANGED <<holder, tpub, tsnap, tcd, tsvc, tcall, tret, tchk, tfr, treq, tgeom>>
 
 TCb == /\ Ev.e = "cb"
        /\ bad' = IF holder["cc"] = Ev.t THEN Flag("CallbackUnlocked", <<Ev.type>>)
                  ELSE IF <<"handler", HeldBy(Ev.t)>> \notin Contexts THEN Flag("ContextOK", <<"handler", HeldBy(Ev.t)>>)
                  ELSE bad
-       /\ UNCHANGED <<holder, tpub, tsnap, tcd, tneed, tacc, tsvc, tcall, tret, tchk>>
+       /\ UNCHANGED <<holder, tpub, tsnap, tcd, tneed, tacc, tsvc, tcall, tret, tchk, tfr, treq, tgeom>>
 
 TSelfLock == /\ Ev.e = "selflock"
              /\ bad' = Flag("NoSelfLock", <<Ev.m>>)
-             /\ UNCHANGED <<holder, tpub, tsnap, tcd, tneed, tacc, tsvc, tcall, tret, tchk>>
+             /\ UNCHANGED <<holder, tpub, tsnap, tcd, tneed, tacc, tsvc, tcall, tret, tchk, tfr, treq, tgeom>>
 
 TFetched == /\ Ev.e = "fetched"
-            /\ bad' = IF Ev.h # tsnap[Ev.t][Ev.pg] THEN Flag("SnapshotAtomic", <<Ev.pg, Ev.h, tsnap[Ev.t][Ev.pg]>>) ELSE bad
-            /\ UNCHANGED <<holder, tpub, tsnap, tcd, tneed, tacc, tsvc, tcall, tret, tchk>>
+            /\ bad' = IF Ev.h # tsnap[Ev.t][Ev.pg] THEN Flag("SnapshotAtomic", <<Ev.pg, Ev.h, tsnap[Ev.t][Ev.pg]>>)
+                      ELSE IF ~(HeldBy(Ev.t) \subseteq {"ev"}) THEN Flag("LockBalance", <<"vbi_fetch_cc_page", HeldBy(Ev.t)>>)
+                      ELSE bad
+            /\ UNCHANGED <<holder, tpub, tsnap, tcd, tneed, tacc, tsvc, tcall, tret, tchk, tfr, treq, tgeom>>
 
 \* state of the library when the threads start
 TStart == /\ Ev.e = "start"
           /\ tpub' = IF Has("pv") THEN Ev.pv ELSE tpub
           /\ tsvc' = IF Has("svc") THEN Rng(Ev.svc) ELSE tsvc
-          /\ UNCHANGED <<holder, tsnap, tcd, tneed, tacc, tcall, tret, tchk, bad>>
+          /\ UNCHANGED <<holder, tsnap, tcd, tneed, tacc, tcall, tret, tchk, bad, tfr, treq, tgeom>>
 
-TCall == /\ Ev.e = "call"
-         /\ tcall' = [tcall EXCEPT ![Ev.t] = [op |-> Ev.op, arg |-> Rng(Ev.arg)]]
-         /\ UNCHANGED <<holder, tpub, tsnap, tcd, tneed, tacc, tsvc, tret, tchk, bad>>
+\* the function a thread returned from before this event (for the LockBalance report)
+Returned(t) == IF tcall[t].op = "" THEN "?" ELSE tcall[t].op
+Balanced(t, allowed) == HeldBy(t) \subseteq allowed
+
+\* an API call begins: the thread owns nothing (a handler calling vbi_fetch_cc_page owns event_mutex)
+TCall == /\ Ev.e = "call" /\ Ev.op # "frame"
+         /\ tcall' = [tcall EXCEPT ![Ev.t] = [op |-> Ev.op, arg |-> IF Has("arg") THEN Rng(Ev.arg) ELSE {}, g |-> tgeom]]
+         /\ bad' = IF ~Balanced(Ev.t, IF Ev.op = "fetch" THEN {"ev"} ELSE {}) THEN Flag("LockBalance", <<Returned(Ev.t), HeldBy(Ev.t)>>) ELSE bad
+         /\ UNCHANGED <<holder, tpub, tsnap, tcd, tneed, tacc, tsvc, tret, tchk, tfr, treq, tgeom>>
+
+\* the decoding thread enters vbi_decode(): the previous frame went through its countdown section and left nothing locked
+TFrame == /\ Ev.e = "call" /\ Ev.op = "frame"
+          /\ tcall' = [tcall EXCEPT ![Ev.t] = [op |-> "vbi_decode", arg |-> {}, g |-> tgeom]]
+          /\ tfr' = [gap |-> IsGap(Ev.dt), pro |-> 0]
+          /\ bad' = IF ~Balanced(Ev.t, {}) THEN Flag("LockBalance", <<Returned(Ev.t), HeldBy(Ev.t)>>)
+                    ELSE IF tfr.pro = 0 THEN Flag("ProloguePresent", <<"frame without a countdown section", tfr.gap, tcd>>)
+                    ELSE bad
+          /\ UNCHANGED <<holder, tpub, tsnap, tcd, tneed, tacc, tsvc, tret, tchk, treq, tgeom>>
+
+TEnd == /\ Ev.e = "end"
+        /\ bad' = IF ~Balanced(Ev.t, {}) THEN Flag("LockBalance", <<Returned(Ev.t), HeldBy(Ev.t)>>)
+                  ELSE IF Ev.t = "dec" /\ tfr.pro = 0 THEN Flag("ProloguePresent", <<"frame without a countdown section", tfr.gap, tcd>>)
+                  ELSE bad
+        /\ UNCHANGED <<holder, tpub, tsnap, tcd, tneed, tacc, tsvc, tcall, tret, tchk, tfr, treq, tgeom>>
 
 TRet == /\ Ev.e = "ret"
         /\ IF Ev.op = "check"
-           THEN /\ tchk' = tchk \cup {<<tcall[Ev.t].arg, Rng(Ev.val)>>}
-                /\ bad' = IF \E x \in tchk : x[1] = tcall[Ev.t].arg /\ x[2] # Rng(Ev.val) THEN Flag("ConsistentSet", <<"check", tcall[Ev.t].arg, Rng(Ev.val)>>) ELSE bad
-           ELSE /\ bad' = IF Rng(Ev.val) # tret[Ev.t] THEN Flag("ConsistentSet", <<"return", Ev.op, Rng(Ev.val), tret[Ev.t]>>) ELSE bad
+           THEN /\ tchk' = tchk \cup {<<<<tcall[Ev.t].g, tcall[Ev.t].arg>>, Rng(Ev.val)>>}
+                /\ bad' = IF ~Balanced(Ev.t, {}) THEN Flag("LockBalance", <<Ev.op, HeldBy(Ev.t)>>)
+                          ELSE IF \E x \in tchk : x[1] = <<tcall[Ev.t].g, tcall[Ev.t].arg>> /\ x[2] # Rng(Ev.val) THEN Flag("ConsistentSet", <<"check", tcall[Ev.t].arg, Rng(Ev.val)>>) ELSE bad
+           ELSE /\ bad' = IF ~Balanced(Ev.t, {}) THEN Flag("LockBalance", <<Ev.op, HeldBy(Ev.t)>>)
+                          ELSE IF Ev.op \in {"add", "remove"} /\ Rng(Ev.val) # tret[Ev.t] THEN Flag("ConsistentSet", <<"return", Ev.op, Rng(Ev.val), tret[Ev.t]>>)
+                          ELSE bad
                 /\ UNCHANGED tchk
-        /\ UNCHANGED <<holder, tpub, tsnap, tcd, tneed, tacc, tsvc, tcall, tret>>
+        /\ UNCHANGED <<holder, tpub, tsnap, tcd, tneed, tacc, tsvc, tcall, tret, tfr, treq, tgeom>>
 
 TRawDec == /\ Ev.e = "rawdec"
-           /\ bad' = IF Rng(Ev.ids) # tret[Ev.t] \cap AllServices THEN Flag("ConsistentSet", <<"decode", Rng(Ev.ids), tret[Ev.t]>>) ELSE bad
-           /\ UNCHANGED <<holder, tpub, tsnap, tcd, tneed, tacc, tsvc, tcall, tret, tchk>>
+           /\ bad' = IF ~Balanced(Ev.t, {}) THEN Flag("LockBalance", <<"decode", HeldBy(Ev.t)>>)
+                     ELSE IF Rng(Ev.ids) # tret[Ev.t] \cap AllServices THEN Flag("ConsistentSet", <<"decode", Rng(Ev.ids), tret[Ev.t]>>) ELSE bad
+           /\ UNCHANGED <<holder, tpub, tsnap, tcd, tneed, tacc, tsvc, tcall, tret, tchk, tfr, treq, tgeom>>
 
 \* A recorded step that breaks a property is not a step of the specification: the behaviour ends at that log
 \* line (TV-REJECT) and the property is named on the output.  (Reporting it as an invariant violation would
 \* make TLC print the whole recorded execution, tens of thousands of states.)
 Conforms == bad' = Ok \/ (PrintT(<<"TV-BAD", l, bad'>>) /\ FALSE)
 TNext == /\ l <= Len(Log) /\ l' = l + 1 /\ LocksUnchanged
-         /\ (TReset \/ TLock \/ TTryFail \/ TUnlock \/ TAcc \/ TCb \/ TSelfLock \/ TFetched \/ TStart \/ TCall \/ TRet \/ TRawDec)
+         /\ (TReset \/ TLock \/ TTryFail \/ TUnlock \/ TAcc \/ TCb \/ TSelfLock \/ TFetched \/ TStart \/ TCall \/ TFrame \/ TEnd \/ TRet \/ TRawDec)
          /\ Conforms
 
 TInit == Init /\ l = 1 /\ TraceInit
